@@ -151,6 +151,8 @@ class ShmProp(Prop):
             what = re.sub(r'^.*?/src/', 'src/', what) if '/src/' in what else what
             cls = 'structure-assertion' if m else 'structure-crash'
             i = by_id.get(cid)
+            if self.id == 'C19' and i is not None and re.search(r'[| ]U( |$)', lines[i]):
+                cls = 'upd-' + cls     # same convention as the harness uses for cases that update headers
             o.violations.append(Violation('%s:%s' % (self.id, cls), 'case %s (rep %s): %s while the tasks performed only legal operations || %s' %
                                           (cid, died[1] if died else '?', what, lines[i][:500] if i is not None else '?')))
             if cid not in failed:
@@ -504,6 +506,7 @@ class C19(ShmProp):
         nk = weighted(rng, [(4, 1), (4, 2), (2, 3)])
         sizes = [rng.choice([3000, 9000, 20000, 31000, 33000, 40000, 64000, 70000, 90000]) for _ in range(rng.randint(1, 3))]
         chunk = rng.choice([4000, 16000, 30000, 50000])
+        upd = rng.random() < 0.3      # a third of the cases also update headers of completely loaded entries (what a 304 does to an IN_MEMORY entry)
         tasks = []
         for t in range(nt):
             ops = []
@@ -517,7 +520,7 @@ class C19(ShmProp):
                     for _ in range(rng.randint(1, 6)):
                         ops.append(weighted(rng, [(12, 'w'), (1, 'x'), (1, 'G%d' % j)]))
                 elif r == 'r':
-                    ops.append(weighted(rng, [(5, 'G%d' % j), (3, 'g'), (3, 'd')]))
+                    ops.append(weighted(rng, [(5, 'G%d' % j), (3, 'g'), (3, 'd')] + ([(4, 'U')] if upd else [])))
                 else:
                     ops.append('E%d' % j)
             tasks.append(ops[:30])
